@@ -1554,7 +1554,7 @@ def compute_label_keypoints(model_config,
                             weights=None,
                             weight_reduction='mean'):
   """Computes label keypoints with the data provide in `lables` array."""
-  if not np.issubdtype(labels[0], np.number):
+  if not np.issubdtype(np.asarray(labels).dtype, np.number):
     # Default feature_values to [0, ... n_class-1] for string labels.
     labels = np.arange(len(set(labels)))
     weights = None
